@@ -15,7 +15,8 @@ RULE = ('sender on the virtual clock with the rate limiter on: (bitrate, window)
         'no longer than window - 5 ms, the data-field bits of SF/FF/CF frames never exceed bitrate x window + one frame; every message is '
         'emitted completely, unchanged (== extracted Coq reference segmentation) and in order; with the limiter disabled (same budget '
         'parameters) nothing is ever held back. All runs replayed on the extracted model.'
-        " (trickle) a long message paced by the peer's STmin under the budget for a good part of a window, then a queue that can burst: what was sent during the trickle still counts until it is a full window old.")
+        " (trickle) a long message paced by the peer's STmin under the budget for a good part of a window, then a queue that can burst: what was sent during the trickle still counts until it is a full window old."
+        ' (reconfigure) bitrate and / or window changed with params.set() + load_params() on a live layer: once the old history has left the window, bursts obey the new budget.')
 ASSUME = ['the model computes the budget in exact rationals; only (bitrate, window) pairs whose float operations are exact are generated (checked by the harness)']
 
 SLOT = 5 * 10**6
